@@ -17,7 +17,7 @@ RULE = ("(a) stratified cases over all 12 decorators x purge x backend family; t
 ASSUMPTIONS = ['twin equivalence is observed through public state only (no peeking at the queue)',
                'hostile objects get a fresh instance per call']
 
-N = {'quick': 600, 'thorough': 3500}
+N = {'quick': 900, 'thorough': 4000}
 SHARDS = {'quick': 4, 'thorough': 16}
 
 
@@ -134,15 +134,21 @@ def hostile_cases(draw, algo, family, tier):
         # raw keys would have to be encoded by the *archive*; the statement promises degradation only for keys the
         # keymap cannot encode or that are unhashable
         kms = [k for k in kms if k['cls'] != 'keymap']
-    keymap = draw(st.one_of(st.none(), st.sampled_from(kms), st.sampled_from(kms))) if key_req == 'hashable' else draw(st.sampled_from(kms))
+    raw = [k for k in kms if k['cls'] == 'keymap']
+    alts = [st.sampled_from(kms)]
+    if raw:
+        alts += [st.sampled_from(raw)] * 2      # raw keys are the ones that turn out unhashable
+    if key_req == 'hashable':
+        alts.append(st.none())
+    keymap = draw(st.one_of(*alts))
     normal = st.one_of(V.ints(), V.ints(), st.sampled_from([['s', 'a'], ['s', 'b'], ['n'], ['f', '0.5']]))
     host = st.one_of(st.sampled_from(V.HOSTILE_KINDS).map(lambda k: ['H', k]),
                      st.sampled_from([['l', [['i', 1]]], ['d', [[['s', 'a'], ['i', 1]]]], ['S', [['i', 1], ['i', 2]]], ['l', []],
                                       ['t', [['l', [['i', 2]]]]], ['t', [['H', 'badhash']]]]))
-    npool = draw(st.integers(4, 7))
+    npool = draw(st.integers(5, 8))
     pool = []
     for j in range(npool):
-        v = draw(host if draw(st.integers(0, 9)) < 4 else normal)
+        v = draw(host if draw(st.integers(0, 9)) < 3 else normal)
         b = {'named': [['x', v]]}
         if sig.get('opt') and draw(st.booleans()):
             b['named'].append(['y', draw(normal)])
@@ -155,6 +161,13 @@ def hostile_cases(draw, algo, family, tier):
     w = dict(G.DEFAULT_WEIGHTS)
     w.update({'call': 16, 'dump': 1, 'load': 1, 'clear': 1, 'clearkeep': 0, 'arch_off': 0, 'arch_on': 0, 'dumpk': 0, 'loadk': 0})
     ops = draw(G.op_lists(w, len(pool), 2, 25 if tier == 'quick' else 50))
+    # epilogue: after each hostile call, sweep the ordinary calls (fills the cache and overflows it right after
+    # the degraded call, where stale bookkeeping for the hostile key would be used)
+    hidx = [j for j, b in enumerate(pool) if _is_hostile(b['named'][0][1])]
+    nidx = [j for j in range(len(pool)) if j not in hidx]
+    rot = draw(st.integers(0, max(0, len(nidx) - 1)))
+    for h in hidx[:3]:
+        ops += [['call', j, 0, 0] for j in (nidx[rot:] + nidx[:rot])[:3]] + [['call', h, 0, 0]] + [['call', j, 0, 0] for j in (nidx[rot:] + nidx[:rot])[::-1]]
     return {'part': 'b', 'module': 'safe', 'algo': algo, 'maxsize': draw(st.sampled_from([2, 1, 3, None, 0])), 'ms_pos': False,
             'purge': draw(st.booleans()), 'keymap': keymap, 'backend': backend, 'sig': sig, 'rmode': 'str', 'pool': pool, 'ops': ops}
 
@@ -162,8 +175,8 @@ def hostile_cases(draw, algo, family, tier):
 def hostile_strata(tier):
     out = []
     for a in H.ALGOS:
-        for fam in ('noarch', 'memarch', 'persist'):
-            out.append(('%s/%s' % (a, fam), hostile_cases(a, fam, tier)))
+        for fam in ('noarch', 'memarch', 'persist', 'noarch', 'memarch'):
+            out.append(('%s/%s/%d' % (a, fam, len(out)), hostile_cases(a, fam, tier)))
     return out
 
 
